@@ -53,7 +53,7 @@ def main():
         r = sh([PY, os.path.join(d, "demo.py")], env=env, cwd=wt)
         res["demo_with"] = r.returncode
         res["demo_out"] = (r.stdout + r.stderr)[-300:]
-        sh(["rsync", "-a", "--delete", "--exclude", ".git", "/verif/", vc + "/"])
+        sh(["rsync", "-a", "--delete", "--exclude", ".git", "--exclude", "coq/Corr", "/verif/", vc + "/"])
         for c in checks:
             e2 = dict(os.environ, RGV_REPO=wt)
             r = sh([os.path.join(vc, "check"), c, tier], env=e2)
